@@ -44,7 +44,8 @@ from props import C01 as base
 ID = 'C09'
 LEVEL = 'other'
 P_TARGETS = ['cgsmiles.pysmiles_utils:rebuild_h_atoms',
-             'cgsmiles.pysmiles_utils:compute_mass']
+             'cgsmiles.pysmiles_utils:compute_mass',
+             'cgsmiles.sample:MoleculeSampler.__init__']      # its contract carries "self.all_atom == all_atom" into sample()
 BUDGET = {'quick': 30.0, 'thorough': 300.0}
 CHUNK = 50
 BOUNDS = {
@@ -161,7 +162,7 @@ NH_WRITTEN = [
 ]
 
 
-# sampler half of the statement ("returned by the resolver or the sampler"): all-atom samplers built WITHOUT a mass table
+# sampler half of the statement ("returned by the resolver or the sampler"): all-atom samplers built without a mass table, and three built with one
 # (the masses are then computed from the fragments themselves), a few growth histories each
 SAMPLER_SETS = [
     ('{#PEO=[>]COC[<]}', {'polymer_reactivities': {'>': 0.5, '<': 0.5}}),
@@ -171,6 +172,11 @@ SAMPLER_SETS = [
     ('{#A=[>]CC[<],#T=[$]O,#B=[>]C[$]C[<]}', {'polymer_reactivities': {'>': 0.4, '<': 0.4, '$': 0.2}, 'terminal_bonds': ['$']}),
     ('{#PI=[>]CC=C(C)C[<]}', {'polymer_reactivities': {'>': 0.5, '<': 0.5}}),
     ('{#V=[>]=CC=[<]}', {'polymer_reactivities': {'>2': 0.5, '<2': 0.5}}),
+    # all-atom samplers WITH a mass table: the table replaces the computed masses, not the hydrogens
+    ('{#PEO=[>]COC[<]}', {'polymer_reactivities': {'>': 0.5, '<': 0.5}, 'fragment_masses': {'PEO': 44.05}}),
+    ('{#PE=[$]CC[$][$]}', {'polymer_reactivities': {'$': 1.0}, 'fragment_masses': {'PE': 26.0}}),
+    ('{#A=[>]CC[<],#T=[$]O,#B=[>]C[$]C[<]}', {'polymer_reactivities': {'>': 0.4, '<': 0.4, '$': 0.2}, 'terminal_bonds': ['$'],
+                                             'fragment_masses': {'A': 28.0, 'T': 17.0, 'B': 27.0}}),
 ]
 
 
